@@ -48,11 +48,11 @@ func (b bits) subset(o bits) bool {
 func (b bits) key() string { return fmt.Sprint([]uint64(b)) }
 
 type rmsg struct {
-	kind     string // SND RCV SEL BRA CLS FWD GC
-	label    string
-	c1, c2   bind
-	provs    []ch
-	hist     bits
+	kind   string // SND RCV SEL BRA CLS FWD GC
+	label  string
+	c1, c2 bind
+	provs  []ch
+	hist   bits
 }
 
 type dropFwd struct {
